@@ -189,6 +189,21 @@ PROPERTIES = {
         not_decided=['ConnectionPool.acquire/release/clean bodies (dicts keyed by tuples, iteration with deletion): bounded only',
                      '"a waiting client obtains a connection as soon as one is free" is a liveness clause: only the stand-in\'s deadlock detector (2 s) speaks to it'],
     ),
+    'C13': dict(
+        modules=['pipeline'], level='proof', bounded=['c13_pipeline.py'],
+        claim='Safety clauses by contract: Worker.process_one applies every task exactly once, in order, to the one item it took, and then reports it finished exactly once; a '
+              'poison pill runs no task; a task failure leaves the item unfinished and propagates. ItemQueue: the unfinished counter never goes negative and the entry counter '
+              'counts queued items plus pills at every scheduling point (rely/guarantee), the condition lock is free again on every exit. Producer.process_one takes one item '
+              'from the source and queues exactly that item, and nothing when the source is empty or fails (so nothing is processed that the source did not supply). '
+              'Pipeline.stop turns running into stopping, stops the producer, queues one pill per worker and wakes a paused pipeline; the concurrency setter queues |change| '
+              'pills on a decrease, one on an increase, none unless running, rejects negatives, and sets the pause event iff the new value is positive. Two genuine defects '
+              '(hangs on stop) were found by the stand-in and repaired (fix: commits).',
+        note='assumed: asyncio Condition / PriorityQueue / Event semantics; one task runs at a time; ItemTask.process and ItemSource.get_item are opaque. The liveness clauses '
+             '("returns once exhausted", "returns as soon as items in flight finish", "a failure surfaces instead of a hang") are outside safety contracts: bounded stand-in '
+             'c13_pipeline.py (labelled bounded) runs the real Pipeline on a real event loop under seeded schedules with a 3 s deadlock detector.',
+        not_decided=['all liveness clauses of the statement: bounded only', 'Pipeline.process / _process_one_worker / _shutdown_processing bodies (asyncio.wait over task sets, '
+                     'task.result()): bounded only'],
+    ),
     'C15': dict(
         modules=['path'], level='proof', bounded=['c15_names.py'],
         claim='Per-byte lemma on the real PercentEncoder.__missing__ for all 256 byte values and all 16 option combinations: the separator is escaped in unix and windows mode, '
